@@ -1,7 +1,7 @@
 (* C12 — Meta cascades to nested classes with documented priority unless recursive=False.
    Only statements closed by `exact` / short glue, and Print Assumptions.
    Model: coq/model/MetaMerge.v; lemmas: coq/proofs/MetaMergeProofs.v. *)
-From DW Require Import PyStr T_MetaFields MetaMerge MetaMergeProofs.
+From DW Require Import PyStr T_MetaFields MetaMerge MetaMergeProofs MetaMergeTable MetaMergeTableProofs.
 
 (* Tie T: the settings table regenerated from AbstractMeta / AbstractEnvMeta is the documented one
    (names, which settings are special = never merged, and the defaults the merge falls back to). *)
@@ -197,3 +197,102 @@ Theorem C12_auto_tags_byvalue_partial :
   impl_union_auto_byvalue (root_config e root) own_ = spec_union_auto (effective own_ root).
 Proof. exact auto_tags_byvalue_partial. Qed.
 Print Assumptions C12_auto_tags_byvalue_partial.
+
+(* ---- multi-root histories over the global _META table --------------------------------------------------------
+   State: _META (class -> own settings of its registered Meta), the table of what the USER declared, the classes whose
+   field parsers the default engine has cached.  Operations, in any number and any order: a user-level binding (class
+   definition with a Meta, LoadMeta/DumpMeta(...).bind_to: `_META[cls] = m`, or `_META[cls] &= m` when the class already
+   has an entry - also an entry the library auto-created), the first load (default engine / v1) or first dump of any
+   root over any class graph (shared nested classes, Unions, recursion).  The library's own writes are the auto-tag
+   writes of UnionParser / load_to_union. *)
+
+(* INVARIANT, for all class graphs and all histories: for every class, every setting other than `tag` is in the class's
+   own Meta exactly as the user declared it (the library never adds, changes or removes a user-level setting of any
+   class); `tag` is what the user declared, or the class's own name where the user declared no truthy tag. *)
+Theorem C12_table_invariant :
+  forall fuel D h c,
+  let st := run_hist fuel D h in
+  (forall k, is_setting k = true -> k <> k_tag -> cown k (tget c (t_meta st)) = cown k (tget c (t_decl st))) /\
+  (cown k_tag (tget c (t_meta st)) = cown k_tag (tget c (t_decl st)) \/
+   (cown k_tag (tget c (t_meta st)) = Some (VStr c) /\ otruthy (cown k_tag (tget c (t_decl st))) = false)).
+Proof. exact table_invariant. Qed.
+Print Assumptions C12_table_invariant.
+
+(* CASCADE after any history: every dataclass node reached from root r (any shape, any depth; own Metas read from the
+   table as it is then) is generated under a Meta that agrees, on every setting other than `tag`, with
+   effective(declared_own(node), declared Meta(r)) - whatever roots were defined, loaded or dumped before, in whatever
+   order, and whatever the library wrote into the nested classes' Metas on the way. *)
+Theorem C12_table_cascade :
+  forall fuel fuel' D h e r n k,
+  let st := run_hist fuel D h in
+  In n (nested_nodes e (tget r (t_meta st)) (map (resolve fuel' D (t_meta st)) (fields_of D r))) ->
+  is_setting k = true -> k <> k_tag ->
+  cget k (n_meta n) = cget k (declared_effective st (n_name n) r).
+Proof. exact table_cascade_nodes. Qed.
+Print Assumptions C12_table_cascade.
+
+(* the same as a law of the two tables (no shape needed) *)
+Theorem C12_table_effective :
+  forall fuel D h n r k,
+  let st := run_hist fuel D h in
+  is_setting k = true -> k <> k_tag ->
+  cget k (table_effective st n r) = cget k (declared_effective st n r).
+Proof. exact table_cascade. Qed.
+Print Assumptions C12_table_effective.
+
+(* ... and `tag` is the declared one or the auto-assigned class name (never a root's: tag is special) *)
+Theorem C12_table_tag :
+  forall fuel D h n r,
+  let st := run_hist fuel D h in
+  cget k_tag (table_effective st n r) = cget k_tag (declared_effective st n r) \/
+  (cget k_tag (table_effective st n r) = Some (VStr n) /\ otruthy (cget k_tag (declared_effective st n r)) = false).
+Proof. exact table_tag. Qed.
+Print Assumptions C12_table_tag.
+
+(* non-vacuity: two roots share UA (directly) and N (whose Union holds UA, UB); R1 is dumped, then a LATER user binding on
+   UA goes through `&=` into the Meta the library auto-created, then R2 is loaded: UA's entry = auto tag + exactly that
+   binding; N, which the user gave a Meta, is untouched; the history reaches all three kinds of write. *)
+Example C12_table_ex :
+  let u := RUnion [RClass (S "UA"); RClass (S "UB"); RScalar] in
+  let D := [(S "UA", [RScalar]); (S "UB", [RScalar]); (S "N", [RScalar; u]); (S "R1", [RClass (S "N"); u]); (S "R2", [RList (RClass (S "N")); u])] in
+  let h := [HBind (S "N") [(k_skip_defaults, VBool true)];
+            HBind (S "R1") [(k_auto, VBool true); (k_tag_key, VStr (S "kA"))];
+            HBind (S "R2") [(k_auto, VBool true); (k_tag_key, VStr (S "kB"))];
+            HUse DumpV0 (S "R1");
+            HBind (S "UA") [(k_raise, VBool true)];
+            HUse LoadV0 (S "R2")] in
+  let st := run_hist 40 D h in
+  t_fuel_out st = false /\
+  show_table [S "UA"; S "UB"; S "N"] (t_meta st) = S "UA=d:True,i:s:UA;UB=i:s:UB;N=l:True" /\
+  cget k_tag_key (table_effective st (S "UA") (S "R2")) = Some (VStr (S "kB")).
+Proof. vm_compute. repeat split; reflexivity. Qed.
+
+(* The auto-tag bookkeeping itself DOES persist (finding F10-C12-auto-assigned-tag-persists-across-roots): UA is tagged
+   while R1 (auto_assign_tags) is dumped; under R2, which assigns no tags, UA still carries tag "UA". *)
+Theorem C12_table_tag_persists_refuted :
+  exists D h n r,
+    let st := run_hist 40 D h in
+    t_fuel_out st = false /\
+    cget k_tag (table_effective st n r) <> cget k_tag (declared_effective st n r).
+Proof.
+  exists [(S "UA", [RScalar]); (S "R1", [RUnion [RClass (S "UA")]]); (S "R2", [RUnion [RClass (S "UA")]])],
+         [HBind (S "R1") [(k_auto, VBool true)]; HBind (S "R2") [(k_skip_defaults, VBool true)]; HUse DumpV0 (S "R1")],
+         (S "UA"), (S "R2").
+  vm_compute. split; [reflexivity|discriminate].
+Qed.
+Print Assumptions C12_table_tag_persists_refuted.
+
+(* The default engine's cached field parsers freeze the FIRST root's config for everything below a shared class (finding
+   F10-C12-first-root-frozen-in-cached-field-parsers), visible in the table: N's Union was built while R1 (no auto tags)
+   was loaded; under R2 (auto_assign_tags) it is not built again, so UA gets no tag - while R2 loaded first tags it. *)
+Theorem C12_table_parsers_frozen_refuted :
+  exists D pre h,
+    t_fuel_out (run_hist 40 D (pre ++ h)) = false /\
+    tget (S "UA") (t_meta (run_hist 40 D (pre ++ HUse LoadV0 (S "R1") :: h))) <> tget (S "UA") (t_meta (run_hist 40 D (pre ++ h))).
+Proof.
+  exists [(S "UA", [RScalar]); (S "N", [RUnion [RClass (S "UA")]]); (S "R1", [RClass (S "N")]); (S "R2", [RClass (S "N")])],
+         [HBind (S "R1") [(k_skip_defaults, VBool true)]; HBind (S "R2") [(k_auto, VBool true)]],
+         [HUse LoadV0 (S "R2")].
+  vm_compute. split; [reflexivity|discriminate].
+Qed.
+Print Assumptions C12_table_parsers_frozen_refuted.
